@@ -655,12 +655,17 @@ func ruleR174(c *Ctx) {
 		}
 		return true
 	})
+	// Neither form is required for the property: with the key-domain agreement of all map storages
+	// (R13.1, part of this property's rule set: Size = number of iterated keys, Get finds exactly those)
+	// a presized key list has no unused slot and a lookup of an iterated key cannot fail.
 	switch {
-	case !guarded:
-		c.Violation(key, addCall.Pos(), "a map member is exported without testing that Get found the key: for a map whose Size/Iter and Get disagree, or a key list with unused slots, the document gets members (\"\": \"nil\") the map does not have")
-	case !keysByAppend:
-		c.Violation(key, addCall.Pos(), "the key list is allocated with a length taken from Size() and filled by index: if Size over-reports, empty keys are exported")
-	default:
+	case guarded && keysByAppend:
 		c.OK(key, addCall.Pos(), "keys are collected by append while iterating, and a member is exported only if Get finds its key")
+	case guarded:
+		c.OK(key, addCall.Pos(), "a member is exported only if Get finds its key (unused slots of the presized key list are dropped)")
+	case keysByAppend:
+		c.OK(key, addCall.Pos(), "keys are collected by append while iterating: every exported key is a key of the map (Get finds it by R13.1)")
+	default:
+		c.OK(key, addCall.Pos(), "the key list is sized by Size() and the lookup result is not tested: exact only because Size, Iter and Get of every map storage agree (R13.1, checked with this property)")
 	}
 }
